@@ -488,6 +488,22 @@ def rule_for_entries(text, ctx, where):
     return text, n
 
 
+def rule_for_zip(text, ctx, where):
+    """`for (a, b) in X.iter().zip(Y.iter()) {` -> index loop over the common prefix (std `zip` stops at the shorter one)"""
+    n = 0
+    while True:
+        m = mask(text)
+        mt = re.search(r"\bfor\s+\(\s*([A-Za-z_]\w*)\s*,\s*([A-Za-z_]\w*)\s*\)\s+in\s+([A-Za-z_][\w\.]*)\.iter\(\)\.zip\(\s*([A-Za-z_][\w\.]*)\.iter\(\)\s*\)\s*\{", m)
+        if not mt:
+            break
+        a, b, x, y = mt.groups()
+        k = f"__zk{n}"
+        text = (text[:mt.start()] + f"let mut {k}: usize = 0; while {k} < {x}.len() && {k} < {y}.len() {{ let {a} = &{x}[{k}]; let {b} = &{y}[{k}]; {k} += 1;"
+                + text[mt.end():])
+        n += 1
+    return text, n
+
+
 def rule_assert_partial(text, ctx, where):
     """PARTIAL mode: `assert!(E);` / `debug_assert!(E);` -> `{ let __aN = E; proof { assume(__aN); } }`
     (E is still evaluated, with its effects; what follows is proved only for executions where the assertion held)"""
@@ -530,7 +546,7 @@ def rule_unreachable_partial(text, ctx, where):
     return text, n
 
 
-RULES = {"msg_to_string": rule_msg_to_string, "for_consume": rule_for_consume, "for_entries": rule_for_entries, "opt_map": rule_opt_map, "opt_or_else": rule_opt_or_else, "closure_inline": rule_closure_inline, "unreachable_partial": rule_unreachable_partial, "assert_partial": rule_assert_partial, "for_index": rule_for_index, "map_err_q": rule_map_err_q, "iter_any": rule_iter_any, "opt_map_or": rule_opt_map_or, "mutself": rule_mutself, "fmtmsg": rule_fmtmsg, "pubfields": rule_pubfields, "T": rule_T, "attrs": rule_attrs, "cell": rule_cell}
+RULES = {"for_zip": rule_for_zip, "msg_to_string": rule_msg_to_string, "for_consume": rule_for_consume, "for_entries": rule_for_entries, "opt_map": rule_opt_map, "opt_or_else": rule_opt_or_else, "closure_inline": rule_closure_inline, "unreachable_partial": rule_unreachable_partial, "assert_partial": rule_assert_partial, "for_index": rule_for_index, "map_err_q": rule_map_err_q, "iter_any": rule_iter_any, "opt_map_or": rule_opt_map_or, "mutself": rule_mutself, "fmtmsg": rule_fmtmsg, "pubfields": rule_pubfields, "T": rule_T, "attrs": rule_attrs, "cell": rule_cell}
 
 
 def apply_rules(text, rules, ctx, counts, where):
